@@ -6,6 +6,7 @@ Import ListNotations.
 
 Section C17.
 Context {A : Type} {RO : ops A} {Hring : IsRing RO}.
+Variable ver : fmm_version.
 Notation r0 := (o0 RO).
 Notation r1 := (o1 RO).
 Notation radd := (oadd RO).
@@ -27,7 +28,7 @@ Variable G4 : V3 -> V3 -> nat -> A.
 Variables (gs : geom) (ss : space) (Es : list nat) (nEs : nat) (quad : list qpt) (kern : @kernel A).
 Hypothesis HEs : NoDup Es.
 Hypothesis HEs_lt : forall f, In f Es -> (f < nEs)%nat.
-Hypothesis Hok : msp_ok Es = true.
+Hypothesis Hok : msp_ok ver Es = true.
 
 Lemma src_elem_msp : forall x f q, In f Es ->
   src_elem (RO:=RO) ss (msp_val RO gs ss) x f q = pot_tmp RO gs ss (full_coeffs RO ss Es x) f q.
@@ -38,7 +39,7 @@ Qed.
 
 Theorem glue_pot_single_layer_correct : forall x,
   (forall a b nx ny, kern a b nx ny = G4 a b 0%nat) ->
-  exists f, glue_pot_single_layer RO G4 gs ss Es nEs quad x = Some f /\
+  exists f, glue_pot_single_layer RO ver G4 gs ss Es nEs quad x = Some f /\
             forall pt, f pt = potential_eval RO gs ss quad kern Es x pt.
 Proof.
   intros x Hk. unfold glue_pot_single_layer. rewrite Hok. eexists. split; [reflexivity|]. intros pt.
@@ -53,7 +54,7 @@ Proof. intros. unfold fmm_pt. apply sum_sum_ext. intros. rewrite H. reflexivity.
 
 Theorem glue_pot_double_layer_correct : forall x,
   (forall a b nx ny, kern a b nx ny = r0 - sumN 3 (fun c => G4 a b (S c) * comp ny c)) ->
-  exists f, glue_pot_double_layer RO G4 gs ss Es nEs quad x = Some f /\
+  exists f, glue_pot_double_layer RO ver G4 gs ss Es nEs quad x = Some f /\
             forall pt, f pt = potential_eval RO gs ss quad kern Es x pt.
 Proof.
   intros x Hk. unfold glue_pot_double_layer. rewrite Hok. eexists. split; [reflexivity|]. intros pt.
@@ -79,7 +80,7 @@ End Pot.
 
 (* ---- prefix supports: the point maps are what they are meant to be ------------------------------------ *)
 Theorem prefix_supports_ok : forall nt ns,
-  maps_ok (seq 0 nt) (seq 0 ns) = true /\ slot_exact slot_pos (seq 0 nt) /\ slot_exact slot_elem (seq 0 nt).
+  maps_ok ver (seq 0 nt) (seq 0 ns) = true /\ slot_exact (slot_pos ver) (seq 0 nt) /\ slot_exact slot_elem (seq 0 nt).
 Proof.
   intros. unfold maps_ok. rewrite !msp_ok_prefix. split; [reflexivity|split].
   - apply slot_pos_exact_prefix.
@@ -87,17 +88,28 @@ Proof.
 Qed.
 
 (* ---- refutation 1: map_space_to_points on a support that is not a prefix raises ------------------------- *)
+(* with the repaired indexing every support satisfies the support hypotheses *)
+Theorem fixed_indexing_all_supports :
+  v_transform_by_position ver = false -> v_msp_store_by_element ver = false ->
+  forall Et Es, maps_ok ver Et Es = true /\ slot_exact (slot_pos ver) Et /\ slot_exact (slot_pos ver) Es.
+Proof.
+  intros H1 H2 Et Es. unfold maps_ok. rewrite !msp_ok_fixed by assumption. split; [reflexivity|split];
+    apply slot_pos_exact_fixed; assumption.
+Qed.
+
 Theorem point_map_refuted :
+  v_msp_store_by_element ver = true ->
   exists supp : list nat, NoDup supp /\ (forall i j, (i < j < length supp)%nat -> (nth i supp 0 < nth j supp 0)%nat) /\
     forall G4 (gt gs : geom) (st ss : space) nEs quad nbrs Sing (x : nat -> A),
-      glue_single_layer RO G4 gt gs st ss supp supp nEs quad nbrs Sing x = None /\
-      glue_laplace_hypersingular RO G4 gt gs st ss supp supp nEs quad nbrs Sing x = None /\
-      glue_pot_single_layer RO G4 gs ss supp nEs quad x = None.
+      glue_single_layer RO ver G4 gt gs st ss supp supp nEs quad nbrs Sing x = None /\
+      glue_laplace_hypersingular RO ver G4 gt gs st ss supp supp nEs quad nbrs Sing x = None /\
+      glue_pot_single_layer RO ver G4 gs ss supp nEs quad x = None.
 Proof.
-  exists [1%nat]. split; [|split].
+  intros Hv. exists [1%nat]. split; [|split].
   - constructor; [intros []|constructor].
   - intros i j H. simpl in H. lia.
-  - intros. repeat split; reflexivity.
+  - intros. unfold glue_single_layer, glue_laplace_hypersingular, glue_pot_single_layer, maps_ok, msp_ok.
+    rewrite Hv. repeat split; reflexivity.
 Qed.
 
 End C17.
@@ -122,15 +134,16 @@ Definition w_space : @space Z :=
      s_shape := p1_shape Zops1 |}.
 Definition w_quad : list (@qpt Z) := [((0, 0), 1); ((1, 0), 1); ((0, 1), 1)]%Z.
 Definition w_G4 : vec3 Z -> vec3 Z -> nat -> Z := fun x y c => (1 + vx x + 2 * vy x + 3 * vx y * vx y + vz y)%Z.
+Definition pinned : fmm_version := mk_version true true.
 Definition w_nbrs : nat -> list nat := fun e => match e with 0%nat => [0; 1] | 1%nat => [0; 1] | _ => [2] end%nat.
 
 Theorem transform_point_index_refuted :
   (* all side conditions of glue_efield_correct hold except "position = element" on the trial support ... *)
-  NoDup [2%nat] /\ slot_exact slot_pos [0%nat] /\ ~ slot_exact slot_pos [2%nat] /\
+  NoDup [2%nat] /\ slot_exact (slot_pos pinned) [0%nat] /\ ~ slot_exact (slot_pos pinned) [2%nat] /\
   (forall e f, In e [0%nat] -> In f [2%nat] ->
        memb f (w_nbrs e) = adjacent (g_verts w_geom e) (g_verts w_geom f)) /\
   (* ... and the glue differs from the dense model *)
-  glue_efield Zops1 w_G4 w_geom w_geom w_space w_space [0%nat] [2%nat] 3 w_quad w_nbrs [] 2%Z 1%Z
+  glue_efield Zops1 pinned w_G4 w_geom w_geom w_space w_space [0%nat] [2%nat] 3 w_quad w_nbrs [] 2%Z 1%Z
      (unitv Zops1 0) 0%nat <>
   matvec 0%Z Z.add Z.mul 3
      (fun I J => entry 0%Z Z.add I J
@@ -148,10 +161,10 @@ Qed.
 
 (* the hypotheses of the glue theorems are satisfiable and the statement is not vacuous: a prefix support *)
 Example C17_hypotheses_satisfiable :
-  maps_ok [0%nat; 1%nat] [0%nat; 1%nat] = true /\
+  maps_ok pinned [0%nat; 1%nat] [0%nat; 1%nat] = true /\
   (forall e f, In e [0%nat; 1%nat] -> In f [0%nat; 1%nat] ->
        memb f (w_nbrs e) = adjacent (g_verts w_geom e) (g_verts w_geom f)) /\
-  exists f, glue_single_layer Zops1 w_G4 w_geom w_geom w_space w_space [0; 1]%nat [0; 1]%nat 3 w_quad w_nbrs [] (unitv Zops1 0)
+  exists f, glue_single_layer Zops1 pinned w_G4 w_geom w_geom w_space w_space [0; 1]%nat [0; 1]%nat 3 w_quad w_nbrs [] (unitv Zops1 0)
             = Some f.
 Proof.
   split; [reflexivity|split].
